@@ -16,6 +16,7 @@ import FastTicc.Model.Run
 import FastTicc.Model.Final
 import FastTicc.Model.FrontEnd
 import FastTicc.Model.OptPhase
+import FastTicc.Model.AdmmSolve
 
 open FastTicc FastTicc.Proto
 
@@ -420,6 +421,22 @@ def step (line : String) : String :=
       pure (showRat (Numeric.chPinned T K d memF (matFn means) (matFn rows)) ++ " "
             ++ showRat (Numeric.chSpec T K d memF (matFn means) (matFn rows)) ++ " "
             ++ showRat B0 ++ " " ++ showRat B1 ++ " " ++ showRat Wd)
+  | ["replaysolve", rho, kind, lam, N, W, maxIter, sqrtN, absTol, relTol, xs, norms] => opt do
+      -- whole-solve replay: X outputs and norms per sweep are oracles; Z, U, the rule and the loop are computed
+      let rho ← parseRat? rho; let N ← parseNat? N; let W ← parseNat? W; let maxIter ← parseNat? maxIter
+      let sqrtN ← parseRat? sqrtN; let absTol ← parseRat? absTol; let relTol ← parseRat? relTol
+      let xs ← parseRatss? xs; let ns ← parseRatss? norms
+      let l ← (if kind == "scalar" then (parseRat? lam).map Numeric.Lambda.scalar
+               else (parseRatss? lam).map (fun M => Numeric.Lambda.matrix (matFn M)))
+      let slack := mkRat Constants.convSlackNum Constants.convSlackDen
+      let orc : AdmmSolve.Oracles Rat :=
+        { x := fun i => xs.getD i []
+          norms := fun i => match ns.getD i [] with
+            | [a, b, c, d, e] => ⟨a, b, c, d, e⟩
+            | _ => ⟨0, 0, 0, 0, 0⟩ }
+      let n := N * W
+      let r := AdmmSolve.solve rho l N W maxIter sqrtN absTol relTol slack orc (n * (n + 1) / 2)
+      pure (s!"{r.2} " ++ showRats r.1.x ++ " " ++ showRats r.1.z ++ " " ++ showRats r.1.u)
   | ["admmloop", maxIter, stops] => opt do
       -- scripted stopping rule: `stops[k]` is the rule's verdict after sweep k+1
       let m ← parseNat? maxIter; let st ← parseNats? stops
